@@ -105,7 +105,9 @@ pub fn check(case: &Case) -> CaseResult {
         Source::Lines { .. } => "edge_lines",
         Source::Mutated { .. } => "mutated_encoder_output",
     });
-    match judge(&stream, &case.seg, case.flavour) {
+    // byte-sized reads over streams beyond 30 KB only cost time
+    let seg = if stream.len() > 30_000 && matches!(case.seg, Seg::OneByte | Seg::Chunk(0..=63)) { Seg::Chunk(997) } else { case.seg.clone() };
+    match judge(&stream, &seg, case.flavour) {
         Err(e) => r.fail(e),
         Ok((dec, _)) => {
             r.class_if(dec.malformed, "malformed_line");
@@ -208,12 +210,12 @@ pub fn source(tier: Tier) -> impl Strategy<Value = Source> {
     let max_payload = tier.pick(9_000, 20_000);
     prop_oneof![
         2 => prop::collection::vec(any::<u8>(), 0..200usize).prop_map(|v| Source::Raw(B(v))),
-        1 => prop::collection::vec(prop_oneof![Just(b'\n'), Just(b'O'), Just(b'K'), Just(b':'), Just(b' '), Just(b'a'), Just(b'1'), any::<u8>()], 0..60usize)
+        1 => prop::collection::vec((0..20usize, any::<u8>()).prop_map(|(i, x)| *b"\n\n\nOOKK::  a1lbiAC\0".get(i).unwrap_or(&x)), 0..60usize)
             .prop_map(|v| Source::Raw(B(v))),
         5 => (prop::collection::vec(prop_oneof![3 => valid_line(), 2 => edge_line()], 1..8usize), prop::bool::weighted(0.8))
             .prop_map(|(lines, terminated)| Source::Lines { lines, terminated }),
         5 => (
-            prop_oneof![4 => wire::responses(4, 200, 200), 1 => wire::responses(3, max_payload, 5_000)],
+            prop_oneof![8 => wire::responses(4, 200, 200), 2 => wire::responses(3, max_payload, 5_000), 1 => wire::responses_maybe_huge(2, max_payload, 300, 2)],
             prop::collection::vec(corruption(), 0..3usize)
         )
             .prop_map(|(resps, corrs)| Source::Mutated { resps, corrs }),
